@@ -16,6 +16,9 @@ pub struct TokenBuffer<'t> {
     tokens: Vec<Token<'t>>,
     last_token_location: u32,
     last_token_number: TokenNumber,
+    /// Line and column where the last added token ended (1-based), used to give gap tokens a
+    /// position.
+    last_token_end_position: (u32, u32),
 }
 
 impl<'t> TokenBuffer<'t> {
@@ -25,6 +28,7 @@ impl<'t> TokenBuffer<'t> {
             tokens: Vec::new(),
             last_token_location: 0,
             last_token_number: 0,
+            last_token_end_position: (1, 1),
         }
     }
 
@@ -34,12 +38,24 @@ impl<'t> TokenBuffer<'t> {
         if self.last_token_location < new_start {
             use crate::lexer::location::Location;
             use crate::lexer::token::INVALID_TOKEN;
+            // The gap starts where the last token ended; its end position follows from its text.
+            let (start_line, start_column) = self.last_token_end_position;
+            let (end_line, end_column) = input
+                [self.last_token_location as usize..new_start as usize]
+                .chars()
+                .fold((start_line, start_column), |(l, c), ch| {
+                    if ch == '\n' { (l + 1, 1) } else { (l, c + 1) }
+                });
             let gap_location = Location {
+                start_line,
+                start_column,
+                end_line,
+                end_column,
                 start: self.last_token_location,
                 end: new_start,
                 file_name: token.location.file_name.clone(),
-                ..Location::default()
             };
+            self.last_token_end_position = (end_line, end_column);
             // Prevent overflow when last token was EOI with MAX token number
             let next_token_number = if self.last_token_number == TokenNumber::MAX {
                 TokenNumber::MAX
@@ -58,6 +74,9 @@ impl<'t> TokenBuffer<'t> {
         }
         self.last_token_location = token.location.end;
         self.last_token_number = token.token_number;
+        if token.location.end_line > 0 {
+            self.last_token_end_position = (token.location.end_line, token.location.end_column);
+        }
         self.tokens.push(token);
     }
 
